@@ -75,6 +75,23 @@ def thread_scenario(rng, sid, i, base):
     return s
 
 
+def perm_scenario(rng, sid, i, base):
+    """a thread that reads files of its own directory again and again while econf_requirePermissions is in force; the
+    directories of the threads have different modes, so some threads are always refused and the others never"""
+    pre = base + b"/t%d" % i
+    s = Scenario(sid, {"thread": i, "perm": True})
+    mode = "755" if i % 2 == 0 else "750"
+    s.add("D", h(pre + b"/conf"), mode)
+    s.file(pre + b"/conf/a.conf", b"k=%d\n[S]\nx=1\n" % i)
+    s.file(pre + b"/conf/b.conf", b"j=%d\n" % i)
+    for r in range(rng.randint(60, 150)):
+        s.add("RF", 0, h(pre + b"/conf/" + (b"a.conf" if r % 3 else b"b.conf")), h(b"="), h(b"#"))
+        if r % 10 == 0:
+            s.add("GET", 0, "str", "-", h(b"k"))
+        s.add("FREE", 0)
+    return s
+
+
 def build_locale():
     """a tiny locale whose decimal point is ',' (none is installed): -> (LOCPATH, name) or None"""
     d = os.path.join(build.BUILD, "locale")
@@ -165,6 +182,16 @@ def direct_checks(res, harness, tier, rng):
             fgroups.append(grp)
     else:
         res.notes.append("no numeric locale with a decimal comma could be built (localedef): float groups skipped")
+    # groups under econf_requirePermissions (set once before the threads start) whose threads read from private directories
+    # of different modes: compared with the same thread alone
+    nfloat = len(fgroups)
+    for g in range(10 if tier == "quick" else 150):
+        nt = rng.choice([4, 8, 8, 16])
+        grp = [perm_scenario(rng, "p%dt%d" % (g, i), i, ("%s/p%d" % (tmp, g)).encode()) for i in range(nt)]
+        pro = Scenario("prologue_p%d" % g, {"prologue": True})
+        pro.add("G", "perms", "004", "001")
+        grp.insert(0, pro)
+        fgroups.append(grp)
     supp = os.path.join(build.BUILD, "tsan.supp")
     with open(supp, "w") as f:
         for a in ALLOWED:
@@ -228,11 +255,20 @@ def direct_checks(res, harness, tier, rng):
     with cf.ThreadPoolExecutor(max_workers=8) as ex:
         conc = list(ex.map(run_group, fgroups))
         alone = list(ex.map(run_alone, fgroups))
-    for grp, (out, err, rc), solo in zip(fgroups, conc, alone):
-        res.hist["float_threads_%d" % (len(grp) - 1)] = res.hist.get("float_threads_%d" % (len(grp) - 1), 0) + 1
-        if out.get(grp[0].id, ([""], ""))[0][:1] != ["locale set ,"]:
+    for gi, (grp, (out, err, rc), solo) in enumerate(zip(fgroups, conc, alone)):
+        isperm = gi >= nfloat
+        label = "perm_threads_%d" if isperm else "float_threads_%d"
+        res.hist[label % (len(grp) - 1)] = res.hist.get(label % (len(grp) - 1), 0) + 1
+        if not isperm and out.get(grp[0].id, ([""], ""))[0][:1] != ["locale set ,"]:
             res.notes.append("the test locale could not be activated: %r" % (out.get(grp[0].id),))
             continue
+        for r in [r for r in err.split("==================") if "ThreadSanitizer" in r]:
+            if len(res.violations) < 3:
+                locg = re.search(r"Location is global '([^']+)'", r)
+                p = common.write_replay(res, "race%d" % (len(res.violations) + 1), None,
+                                        "ThreadSanitizer report while %d threads worked on private objects (global: %s)\n%s\nscenarios:\n%s"
+                                        % (len(grp) - 1, locg.group(1) if locg else "?", r[:3000], "".join(s.text() for s in grp)))
+                res.violations.append((p, "unsynchronised access to shared memory", False))
         for sc in grp[1:]:
             res.evaluations += 1
             il, ist = out.get(sc.id, ([], "MISSING"))
@@ -241,8 +277,10 @@ def direct_checks(res, harness, tier, rng):
                 res.nontrivial.add(tuple(sc.lines))
             if (il != al or ist != "ok") and len(res.violations) < 3:
                 fd = scn.first_diff(il, al)
-                p = common.write_replay(res, "float%d" % (len(res.violations) + 1), sc,
-                                        "under a numeric locale with a decimal comma a thread's results differ from the results of the same "
-                                        "calls run alone: first difference %s (concurrent, alone); %d threads in the group" % (fd, len(grp) - 1), il, al)
-                res.violations.append((p, "thread output differs from its run alone (floating values, decimal-comma locale)", False))
+                what = ("with econf_requirePermissions in force and private directories of different modes" if isperm
+                        else "under a numeric locale with a decimal comma")
+                p = common.write_replay(res, "%s%d" % ("perm" if isperm else "float", len(res.violations) + 1), sc,
+                                        "%s a thread's results differ from the results of the same "
+                                        "calls run alone: first difference %s (concurrent, alone); %d threads in the group" % (what, fd, len(grp) - 1), il, al)
+                res.violations.append((p, "thread output differs from its run alone (%s)" % ("permission requirement" if isperm else "floating values, decimal-comma locale"), False))
     res.notes.append("%d thread groups, %d ThreadSanitizer reports (after suppressing the documented error-location record)" % (len(groups), races))
